@@ -111,4 +111,11 @@ theorem C10_cdn_key_sources (E D : Bytes → Bytes → Bytes) (hED : ∀ k b, D 
       slice ticket 0x1DC 8 = tid → ∀ i, (Cdn.setupKey D e tid [] [] i (some ticket)).1.normal 0x40 = some k) :=
   cdn_key_sources E D hED hE e x ky idx k tid hx hk htid hidx hnd
 
+/-- **frame of the cartridge header**: what `CCIReader` makes of an image (accept / reject, media id, image size, the list
+    of partitions with their offsets and sizes) depends on four fields only — magic, size, media id, partition table.
+    Every other header byte (partition file-system / crypt types, the partition FLAGS incl. the media-unit exponent and
+    the SDK 2.x card-device byte, hashes, reserved areas) and everything outside the header is irrelevant -/
+theorem C10_cci_frame (file file' : Bytes) (start start' : Nat) (h : Cci.relevant file start = Cci.relevant file' start') :
+    Cci.parse file start = Cci.parse file' start' := Cci.parse_frame file file' start start' h
+
 end Pyctr.C10
